@@ -16,7 +16,7 @@ def table_det():
     rows = json.load(open(os.path.join(V, "selftest", "determinism.json")))
     out = ["| engine | mode | profile | run digests compared | processes (worker counts) | identical |", "|---|---|---|---|---|---|"]
     for r in rows:
-        out.append("| %s | %s | %s | %d | %d (%s) | %s |" % (r["engine"], r.get("mode", "-"), r.get("profile", "miri"), r["runs"], r["processes"], ",".join(map(str, r.get("worker_counts", []))) or "-", "yes" if r["identical"] else "NO"))
+        out.append("| %s | %s | %s | %d | %d (%s) | %s |" % (r["engine"], r.get("mode", "-"), r.get("profile", "miri"), r.get("runs", 1), r["processes"], ",".join(map(str, r.get("worker_counts", []))) or "-", "yes" if r["identical"] else "NO"))
     return "\n".join(out)
 def table_seeded():
     out = ["| kept change | property | what it needs to manifest | caught by |", "|---|---|---|---|"]
@@ -34,9 +34,20 @@ def table_harmless():
         m = json.load(open(mp))
         out.append("| `harmless/%s`: %s | %s | %s | %s |" % (os.path.basename(d), m["summary"].replace("|", "/"), ", ".join((x if isinstance(x, str) else x["file"] + " (C16: caught)") for x in m["patches"]), ", ".join(m["properties"]), m["result"]))
     return "\n".join(out)
+def table_cov():
+    path = os.path.join(V, "selftest", "coverage.json")
+    if not os.path.exists(path):
+        return "(not run)"
+    d = json.load(open(path))
+    rows = ["| library file | engine | lines executed | regions executed | functions executed | lines holding a region never executed |", "|---|---|---|---|---|---|"]
+    for f, r in sorted(d["files"].items()):
+        rows.append("| `%s` | %s | %d / %d | %d / %d | %d / %d | %s |" % (f, r["engine"], r["lines_executed"], r["lines"], r["regions_executed"], r["regions"], r["functions_executed"], r["functions"], ", ".join(map(str, r["lines_with_an_unexecuted_region"])) or "-"))
+    return "\n".join(rows)
+
+
 p = os.path.join(V, "DESIGN.md")
 s = open(p).read()
-for name, fn in (("SENSITIVITY", table_sens), ("DETERMINISM", table_det), ("SEEDED", table_seeded), ("HARMLESS", table_harmless)):
+for name, fn in (("COVERAGE", table_cov), ("SENSITIVITY", table_sens), ("DETERMINISM", table_det), ("SEEDED", table_seeded), ("HARMLESS", table_harmless)):
     b, e = "<!-- BEGIN:%s -->" % name, "<!-- END:%s -->" % name
     if b in s and e in s:
         s = s[:s.index(b) + len(b)] + "\n" + fn() + "\n" + s[s.index(e):]
